@@ -130,7 +130,15 @@ func c15Run(cs c15Case) (obs c15Obs, cw *countingWriter, panicked interface{}) {
 		obs.CallErrs = append(obs.CallErrs, s)
 		obs.FailedIn = append(obs.FailedIn, cw.failures > before)
 	}
+	active := 0
 	ws.Route(ws.GET("/r").To(func(req *restful.Request, resp *restful.Response) {
+		// the nested dispatch below addresses /b/inner: this function is never entered while it runs
+		// (a runaway recursion would take the whole process down instead of giving a verdict)
+		active++
+		defer func() { active-- }()
+		if active > 1 {
+			panic("the route function of /b/r was entered again while it was running")
+		}
 		resp.PrettyPrint(cs.Pretty)
 		v := c15Value(cs.Value)
 		before := cw.failures
